@@ -138,6 +138,8 @@ class Program:
 
 def ty_sig(t):
     k = t[0]
+    if k == "raw":
+        return "raw:" + t[1]
     if k == "prim":
         return t[1]
     if k in ("enum", "struct"):
